@@ -1696,6 +1696,7 @@ func (x *c16Runner) directionF(sig *c16Sig, ast *syntax.Ast) {
 	pan := c16Recover(func() {
 		_, _, _, cerr = syntax.ParseSourceBytes([]byte(src), "call.mro", []string{sig.Dir}, false)
 	})
+	x.forkModelFn(k, in, callable, &ast.TypeTable, args, src, pan == nil && cerr == nil)
 	if pan != nil || cerr != nil {
 		r.violate(Violation{Kind: "property", Key: k.key("fn-fork-invocation-does-not-compile"),
 			What: fmt.Sprintf("the per-fork invocation text does not compile: %v %v", pan, cerr), Input: in, Impl: src})
@@ -1995,21 +1996,21 @@ func runC16(c *Ctx) {
 		"vs Lean buildBinding/encodeArg/printable; B) hand-written MRO text (struct literals, MRO-only escapes, trailing " +
 		"commas)->data->text'->data' + Lean encode/wt on the real parser's expressions; F) BuildCallSource on " +
 		"resolver-shaped argument trees (pure core of Fork.writeInvocation) compiles and carries the arguments; float " +
-		"token class and exact value (MRO printer, JSON printer) vs Lean textAsInt/jsonAsInt/intVal; negative-zero probe; M) declarations over several files, 1-3 includes in every order, callable defined in the 1st/2nd/3rd/transitively included file; T) Tier A real pipestances (GenProgram + top-level array/keyed map calls): every <node>/<fork>/_invocation compiles, names the callable, round-trips and equals the delivered _args. non-trivial = value depth>=2 or split or escaped string; distinct = distinct input text"
+		"token class and exact value (MRO printer, JSON printer) vs Lean textAsInt/jsonAsInt/intVal; negative-zero probe; M) declarations over several files, 1-3 includes in every order, callable defined in the 1st/2nd/3rd/transitively included file; T) Tier A real pipestances (GenProgram + top-level array/keyed map calls): every <node>/<fork>/_invocation compiles, names the callable, round-trips and equals the delivered _args, and per fork the Lean model of Fork.writeInvocation (invocationOf / forkCompiles / printFork on the inputs resolveInputs(fork, keepSplit) returns) vs the real file: empty iff the model fails, compiles iff forkCompiles, text bytes equal, stage data = _args; F also against that model. non-trivial = value depth>=2 or split or escaped string; distinct = distinct input text"
 	x := &c16Runner{c: c, r: r}
 	x.corpus()
 	x.fixedF()
 	x.negZero()
 	nta := 30
 	if c.Thorough {
-		nta = 300
+		nta = 220
 	}
 	x.tierA(nta)
 
 	nsig, per := 160, 16
 	nflt := 20000
 	if c.Thorough {
-		nsig, per, nflt = 3000, 24, 400000
+		nsig, per, nflt = 2600, 24, 400000
 	}
 	x.floats(nflt)
 	nstr := 1500
@@ -2022,6 +2023,11 @@ func runC16(c *Ctx) {
 		nbytes = 20000
 	}
 	x.bytesAll(nbytes)
+	nsort := 800
+	if c.Thorough {
+		nsort = 8000
+	}
+	x.sortKeys(nsort)
 	for i := 0; i < nsig; i++ {
 		sig := c16GenSig(c, i)
 		if err := sig.write(); err != nil {
